@@ -152,7 +152,7 @@ T_Cb == /\ IsEvent("cb")
                                                 /\ ~act[a].pbseen)
                           /\ act' = [act EXCEPT ![a].pbseen = TRUE] /\ UNCHANGED <<hnd, cli, rsp, tmr, reg, now, hst, cur, yl>>
                      ELSE /\ (IF act[a].pc # "failed" THEN TRUE ELSE G("cb.pb.failed", FALSE))     \* the graceful epilogue on a failure path
-                          /\ (IF ~(act[a].pc = "idle" /\ act[a].mq # <<>>) THEN TRUE ELSE G("cb.pb.undrained." \o Head(act[a].mq).src, FALSE))   \* stopping with accepted messages still queued
+                          /\ (IF ~(act[a].pc = "idle" /\ act[a].mq # <<>>) THEN TRUE ELSE G("cb.pb.undrained." \o Head(act[a].mq).src \o (IF \E b \in Actor : act[b].pc = "failed" THEN ".fail" ELSE ""), FALSE))   \* stopping with accepted messages still queued
                           /\ G(IF HeldAsChild(a) THEN "cb.pb.child" ELSE "cb.pb",
                                (act[a].pc = "dequeued" /\ act[a].curp.k \in {"stop", "restart"}) \/ (act[a].pc = "idle" /\ act[a].mq = <<>> /\ ~ChanOpen(a)))
                           /\ RunLoop(a)
